@@ -73,6 +73,9 @@ def scenarios(rng, n, tier):
             if rng.random() < 0.1:
                 o["raises"] = True
             jobs.append(o)
+        if rng.random() < 0.4:
+            for o in rng.sample(jobs, min(2, len(jobs))):
+                o["pass_sched"] = True       # the scheduler is handed to the callbacks as an argument
         callers = 1 if rng.random() < 0.7 else 2
         threads = [[{"op": "exec", "force": rng.random() < 0.25}] + ([{"op": "jobs"}] if rng.random() < 0.5 else []) for _ in range(callers)]
         yield {"tz": None, "n_threads": rng.choice([1, 2, 3, 0]), "clock0": clock, "advance": 3 * S, "jobs": jobs, "threads": threads, "ops": [],
